@@ -235,7 +235,10 @@ static void run_C06(const Args &a, long cs) {
 	if (!df.empty()) viol("C06:read_fits_mem:independent-cfitsio-file-misread:" + df, "{\"table\":" + s.full_json() + "}");
 	{
 		phase("read independent raw-encoder file");
-		std::vector<unsigned char> raw = raw_encode(raw_from_spec(s));
+		// the layout names its extensions (KNOTSn, EXTENTS) and does not prescribe their order: an independent writer may store them in any order
+		std::vector<RawHDU> rh = raw_from_spec(s); bool shuffled = false;
+		if (rh.size() > 2 && r.coin(0.45)) { for (size_t i = rh.size() - 1; i > 1; i--) std::swap(rh[i], rh[1 + r.below(i)]); shuffled = true; count("independent-raw-files-with-extensions-in-another-order"); }
+		std::vector<unsigned char> raw = raw_encode(rh); (void)shuffled;
 		Table T2; bool ok = true; std::string p = g_tmp + "/raw." + std::to_string(getpid()) + ".fits";
 		bool disk = r.coin(0.3);
 		try { if (disk) { write_file(p, raw.data(), raw.size()); T2.read_fits(p); } else T2.read_fits_mem(raw.data(), raw.size()); }
